@@ -189,7 +189,9 @@ def run(check: Check) -> None:
                 bad = replays.run(p)
                 return (f"poly_fit(degree={deg})", bad, p) if bad else None
 
-            rig.run_sym(check, "poly.fit", fn, claims, replay=rep, timeout_ms=tmo, case_id=f"poly fit n={n} deg={deg}",
+            # the contract is stated for data with more distinct points than the degree; with n = 3, 4 rows: pairwise distinct
+            pre_fit = [z3.Real(f"x{i}") != z3.Real(f"x{j}") for i in range(n) for j in range(i + 1, n)]
+            rig.run_sym(check, "poly.fit", fn, claims, pre=pre_fit, replay=rep, timeout_ms=tmo, case_id=f"poly fit n={n} deg={deg}",
                         sample=f"poly(x in R^{n}, degree={deg}) orthonormal and orthogonal to the constant")
 
         # replay from an arbitrary recorded state: the three-term recurrence, row by row
